@@ -485,6 +485,24 @@ func runC13(c *Ctx) {
 			}
 		}
 	}, func(r *Rng, a *AdmitCase) {
+		// the same level at DIFFERENT versions in two or three modes, and a pod whose verdict depends on the version: each
+		// message must list the controls violated at the version it names
+		if a.Res != "namespaces" && a.Obj.Pod != nil && r.Chance(1, 4) {
+			lv := pick(r, []string{"baseline", "restricted"})
+			vs := []string{"latest", "v1.33", "v1.32", "v1.31", "v1.30", "v1.28", "v1.26", "v1.24", "v1.22", "v1.21", "v1.18", "v1.7"}
+			a.NSLabels = map[string]string{api.EnforceLevelLabel: pick(r, []string{lv, lv, "privileged", "baseline"}), api.EnforceVersionLabel: pick(r, vs),
+				api.AuditLevelLabel: lv, api.AuditVersionLabel: pick(r, vs), api.WarnLevelLabel: lv, api.WarnVersionLabel: pick(r, vs)}
+			vp := versionSensitivePod(r, a.Obj.Pod.Name)
+			vp.Namespace = a.Obj.Pod.Namespace
+			a.Obj.Pod = vp
+			if a.Old.Pod != nil {
+				old := vp.DeepCopy()
+				old.Spec.Containers[0].Image = "previous"
+				a.Old.Pod = old
+			}
+			a.Tags = append(a.Tags, "c13.versionSensitive")
+			return
+		}
 		// make enforce / audit / warn coincide often
 		if a.Res != "namespaces" && r.Chance(2, 3) {
 			lv := pick(r, []string{"baseline", "restricted"})
